@@ -212,12 +212,16 @@ func runCheck(id, tier string, seed int, writeEvidence bool) (int, []violation) 
 		json.Unmarshal(b, &kfs)
 	}
 	var real []violation
+	nKnown := 0
+	var knownList []string
 	for _, v := range viols {
 		known := false
 		for _, k := range kfs {
 			if k.Status == "open" && k.Property == id && k.Obligation == v.Obligation && v.Reason != "obligation-missing" {
 				fmt.Printf("KNOWN-FINDING: property=%s %s (%s)\n", id, k.What, k.Obligation)
 				known = true
+				nKnown++
+				knownList = append(knownList, k.Obligation+": "+k.What)
 			}
 		}
 		if !known {
@@ -261,8 +265,8 @@ func runCheck(id, tier string, seed int, writeEvidence bool) (int, []violation) 
 		}
 		fmt.Printf("VIOLATION property=%s replay=%s obligation=%s reason=%s%s\n", id, rf, v.Obligation, v.Reason, suffix)
 	}
-	if writeEvidence {
-		writeEvidenceFile(id, tier, seed, rr, expected, claimed, discharged, len(real), time.Since(t0).Seconds(), funcs)
+	if writeEvidence && os.Getenv("GOVC_NO_EVIDENCE") == "" {
+		writeEvidenceFile(id, tier, seed, rr, expected, claimed, discharged, len(real), time.Since(t0).Seconds(), funcs, nKnown, knownList)
 	}
 	fmt.Printf("property=%s tier=%s functions=%d claimed=%d discharged=%d violations=%d wall=%.1fs\n", id, tier, len(funcs), len(expected), discharged, len(real), time.Since(t0).Seconds())
 	if len(real) > 0 {
@@ -302,7 +306,7 @@ func runReplay(re replayEntry) (string, bool, string) {
 	return s, failed, "cd " + pkgDir + " && go " + strings.Join(args, " ")
 }
 
-func writeEvidenceFile(id, tier string, seed int, rr *runResult, expected []string, claimed map[string]bool, discharged, nviol int, wall float64, funcs []string) {
+func writeEvidenceFile(id, tier string, seed int, rr *runResult, expected []string, claimed map[string]bool, discharged, nviol int, wall float64, funcs []string, nKnown int, knownList []string) {
 	type oblOut struct {
 		Name      string `json:"name"`
 		Result    string `json:"result"`
